@@ -5,6 +5,7 @@ package parser
 
 import (
 	"fmt"
+	"strconv"
 	"strings"
 
 	goerrors "github.com/ajitpratap0/GoSQLX/pkg/errors"
@@ -991,8 +992,10 @@ func (p *Parser) parseSelectStatement() (ast.Statement, error) {
 		}
 
 		// Convert string to int
-		firstVal := 0
-		_, _ = fmt.Sscanf(p.currentToken.Literal, "%d", &firstVal)
+		firstVal, err := p.rowCount("LIMIT")
+		if err != nil {
+			return nil, err
+		}
 		p.advance()
 
 		// MySQL-style LIMIT offset, count: LIMIT 10, 20
@@ -1001,8 +1004,10 @@ func (p *Parser) parseSelectStatement() (ast.Statement, error) {
 			if !p.isNumericLiteral() {
 				return nil, p.expectedError("integer for LIMIT count")
 			}
-			secondVal := 0
-			_, _ = fmt.Sscanf(p.currentToken.Literal, "%d", &secondVal)
+			secondVal, err := p.rowCount("LIMIT count")
+			if err != nil {
+				return nil, err
+			}
 			p.advance()
 			// In MySQL LIMIT offset, count: first is offset, second is count
 			selectStmt.Offset = &firstVal
@@ -1022,8 +1027,10 @@ func (p *Parser) parseSelectStatement() (ast.Statement, error) {
 		}
 
 		// Convert string to int
-		offsetVal := 0
-		_, _ = fmt.Sscanf(p.currentToken.Literal, "%d", &offsetVal)
+		offsetVal, err := p.rowCount("OFFSET")
+		if err != nil {
+			return nil, err
+		}
 
 		// Add OFFSET to SELECT statement
 		selectStmt.Offset = &offsetVal
@@ -1230,8 +1237,11 @@ func (p *Parser) parseFetchClause() (*ast.FetchClause, error) {
 	}
 
 	// Convert string to int64
-	var fetchVal int64
-	_, _ = fmt.Sscanf(p.currentToken.Literal, "%d", &fetchVal)
+	fetchCount, err := p.rowCount("FETCH count")
+	if err != nil {
+		return nil, err
+	}
+	fetchVal := int64(fetchCount)
 	fetchClause.FetchValue = &fetchVal
 	p.advance()
 
@@ -1349,4 +1359,16 @@ func (p *Parser) parseForClause() (*ast.ForClause, error) {
 	}
 
 	return forClause, nil
+}
+
+// rowCount converts the current numeric literal to the count of a LIMIT,
+// OFFSET or FETCH clause. A literal that is not an integer of machine size
+// (1.5, 1e3, 99999999999999999999) is rejected: stored truncated, the tree
+// would carry a number that was not written.
+func (p *Parser) rowCount(clause string) (int, error) {
+	v, err := strconv.Atoi(p.currentToken.Literal)
+	if err != nil {
+		return 0, p.expectedError("integer for " + clause)
+	}
+	return v, nil
 }
